@@ -25,17 +25,17 @@ import (
 
 const stopEnumK = 900
 
-var stopEnumSystems = [...]string{"nbtns.Server/udp", "nbtns.UDPServer/udp", "nbtns.TCPServer/tcp", "llmnr.Server", "llmnr.Client", "llmnr.Server/handler-registers-handler", "nbtns.TCPServer/idle-connection"}
+var stopEnumSystems = [...]string{"nbtns.Server/udp", "nbtns.UDPServer/udp", "nbtns.TCPServer/tcp", "llmnr.Server", "llmnr.Client", "llmnr.Server/handler-registers-handler", "nbtns.TCPServer/idle-connection", "llmnr.Server/close-during-startup"}
 
-// systems 0..5 take part in the single-preemption enumeration
-const stopEnumN1 = 6
+// the systems of the single-preemption enumeration
+var stopEnum1Systems = [...]int{0, 1, 2, 3, 4, 5, 7}
 
-func StopEnumSize() int64 { return stopEnumN1 * 2 * stopEnumK }
+func StopEnumSize() int64 { return int64(len(stopEnum1Systems)) * 2 * stopEnumK }
 
 func runStopEnum(w *rt.World, res *hx.Result, index int64) *hx.Violation {
 	k := int(index % stopEnumK)
 	m := 1 + int(index/stopEnumK%2)
-	sysIdx := int(index / (2 * stopEnumK) % stopEnumN1)
+	sysIdx := stopEnum1Systems[int(index/(2*stopEnumK))%len(stopEnum1Systems)]
 	return stopEnumRun(w, res, sysIdx, m, k, 0)
 }
 
@@ -48,7 +48,7 @@ const (
 	stopEnum2J = 14
 )
 
-var stopEnum2Systems = [...]int{0, 1, 2, 3, 4, 6}
+var stopEnum2Systems = [...]int{0, 1, 2, 3, 4, 6, 7}
 
 func StopEnum2Size() int64 { return int64(len(stopEnum2Systems)) * stopEnum2K * stopEnum2J }
 
@@ -279,6 +279,26 @@ func stopEnumRun(w *rt.World, res *hx.Result, sysIdx, m, k, j int) *hx.Violation
 		}
 		noteSockets()
 		return checkIDs(got)
+
+	case 7:
+		// Close lands while ListenAndServe is still starting up (k statements into it): ListenAndServe returns, nothing
+		// is left listening. No traffic.
+		srv, err := llmnr.NewIPv4ServerWithHandlers([]llmnr.Handler{llmnr.HandlerFunc(llmnr.HandlerDescribePacket)})
+		if err != nil {
+			return &hx.Violation{Class: "start_failed", Key: sysName, Msg: err.Error()}
+		}
+		stopper := rt.GoHarness("stopper", serverHost, func() {
+			park()
+			noteStop()
+			srv.Close()
+		})
+		armed.Wait(-1)
+		ls := rt.GoHarness("llmnr-listen-and-serve", serverHost, func() { srv.ListenAndServe() })
+		if v := finish(stopper, "Close()", llStopBound, ls); v != nil {
+			return v
+		}
+		noteSockets()
+		return nil
 
 	case 4:
 		stopResponder := false
